@@ -186,6 +186,7 @@ type diskDesc struct {
 	Zombies []fileDesc
 	Wm      int64 // -1: no file
 	Tmp     bool
+	Alt     string // model only: the watermark a crash may bring back ("-": none)
 }
 
 func (d diskDesc) String() string {
@@ -255,6 +256,8 @@ func parseDisk(s string) (diskDesc, error) {
 			}
 		case "tmp":
 			d.Tmp = kv[1] == "1"
+		case "alt":
+			d.Alt = kv[1]
 		}
 		if err != nil {
 			return d, err
@@ -286,6 +289,16 @@ type realSide struct {
 
 func newRealSide(root string) *realSide {
 	return &realSide{root: root, files: map[uint64]*fileRec{}, prev: map[uint64]bool{}, cache: map[string]scanned{}}
+}
+
+// knownBatches counts the complete records learnt so far over all logs (unlinked ones included:
+// their bytes stay readable through the hard links). It grows exactly when a batch is appended.
+func (r *realSide) knownBatches() int {
+	n := 0
+	for _, fr := range r.files {
+		n += len(fr.ends) - 1
+	}
+	return n
 }
 
 func (r *realSide) newDir() string {
